@@ -137,6 +137,8 @@ impl HistoryEntry {
 
     /// Record the first publication for a newer execution incarnation.
     fn record(&self, incarnation: usize, value: EntryValue) -> bool {
+        #[cfg(grevm_verif)]
+        crate::verif::sched_point("win.hist.record");
         let mut state = self.state.write();
         if incarnation <= state.incarnation {
             return false;
@@ -148,6 +150,8 @@ impl HistoryEntry {
 
     /// Invalidate only the exact incarnation that validation inspected.
     fn invalidate(&self, incarnation: usize) -> bool {
+        #[cfg(grevm_verif)]
+        crate::verif::sched_point("win.hist.invalidate");
         let mut state = self.state.write();
         if state.incarnation != incarnation {
             return false;
